@@ -356,11 +356,77 @@ func init() {
 		Fn:    ruleBranchCheckedIsBranchStored})
 }
 
+// r7_10Helper: the branch checks of newVersion live in a validating helper that returns the branch the child is to
+// carry.  In the helper every in-loop comparison of another node's branch compares with the value the helper returns
+// on the success returns the comparison can reach; in newVersion that result is what is stored into the child.
+func r7_10Helper(r *Run, f *ssa.Function, hcall *ssa.Call, g *ssa.Function) {
+	w := r.W
+	isBranchLoad := func(v ssa.Value) bool { return isFieldLoad(stripConv(v), "nodeT", "branch") }
+	// newVersion: child.branch = <first result of the helper>
+	okStore, nStore := true, 0
+	for _, st := range fieldStores(f, "nodeT", "branch") {
+		nStore++
+		ex, ok := stripConv(st.Val).(*ssa.Extract)
+		if !ok || ex.Tuple != ssa.Value(hcall) || ex.Index != 0 {
+			okStore = false
+		}
+	}
+	r.check(nStore >= 1 && okStore, "newVersion:child-branch-is-the-checked-branch", "the branch stored into the child is the branch the validating helper returned",
+		"the child is stored with a branch other than the one the uniqueness check was made for", w.pos(hcall.Pos()))
+	reach := func(from, to *ssa.BasicBlock) bool { return from == to || blockReaches(from, to) }
+	k := 0
+	for _, b := range g.Blocks {
+		if _, set, _ := innermostLoop(g, b); set == nil {
+			continue
+		}
+		for _, in := range b.Instrs {
+			bo, ok := in.(*ssa.BinOp)
+			if !ok || (bo.Op != token.EQL && bo.Op != token.NEQ) {
+				continue
+			}
+			var y ssa.Value
+			if isBranchLoad(bo.X) {
+				y = stripConv(bo.Y)
+			} else if isBranchLoad(bo.Y) {
+				y = stripConv(bo.X)
+			}
+			if y == nil {
+				continue
+			}
+			k++
+			ok2 := true
+			for _, rb := range g.Blocks {
+				ret, isRet := rb.Instrs[len(rb.Instrs)-1].(*ssa.Return)
+				if !isRet || isErrorExit(ret) || len(ret.Results) == 0 || !reach(b, rb) {
+					continue
+				}
+				x := stripConv(ret.Results[0])
+				if phi, isPhi := x.(*ssa.Phi); isPhi {
+					for i, e := range phi.Edges {
+						if reach(b, phi.Block().Preds[i]) && stripConv(e) != y {
+							ok2 = false
+						}
+					}
+				} else if x != y {
+					ok2 = false
+				}
+			}
+			r.check(ok2, fmt.Sprintf("newVersion:branch-comparison#%d", k), "the compared branch is the value the helper returns along every path from the comparison",
+				"the uniqueness check compares other nodes' branches with one value and the child is then stored with another: a plain newversion on a node of a named branch is compared with the empty request value, finds no sibling, and a second child lands on the same branch", w.pos(bo.Pos()))
+		}
+	}
+	r.check(k >= 2, "newVersion:branch-comparisons", fmt.Sprintf("%d comparisons of other nodes' branches inside loops", k), "fewer than the two loops confirmed by reading: rule needs review", w.fpos(g))
+}
+
 func ruleBranchCheckedIsBranchStored(r *Run) {
 	w := r.W
 	f := w.method("datastore", "repoManager", "newVersion")
 	if f == nil {
 		r.undecided("datastore.repoManager.newVersion", "anchor not found")
+		return
+	}
+	if hcall, hfn := branchCheckHelper(f); hcall != nil {
+		r7_10Helper(r, f, hcall, hfn)
 		return
 	}
 	if !newVersionIntact(r, f) {
